@@ -1,21 +1,57 @@
 (* C02 - no frame on the wire can terminate the raw (canary) listener: property theorems.
 
-   The full statement is [C02_full].  The unchanged code violates it: the model stays
-   faithful, [C02_full_refuted] and the five [_refuted] theorems give byte-level
-   witnesses (replayed on the implementation by every run), and the property is proved
-   outside those five classes ([C02_history_safe_outside_classes],
-   [C02_probe_after_hostile]). *)
+   The model is the code after the repairs a545d57 (ipv4 total length), eb7aa9c (tcp
+   header / option length), 3efea5c (send without ARP entry), 1cf927a (state table
+   full).  The full statement [C02_full] and the probe property for ALL histories
+   ([C02_probe_after_hostile]) are theorems: no hypothesis on the configuration, the
+   frames' contents, the number of connection attempts or the behaviour of the
+   established-state machine - only "every frame has at least the 14 bytes of a
+   link-layer header" (the kernel delivers no less). *)
 From HT Require Import Common.Bytes C02.Model C02.Check C02.Proofs.
 Open Scope Z_scope.
 
-Definition C02_full : Prop :=
-  forall c orc frames, Forall (fun tf : Z * bytes => 14 <= zlen (snd tf)) frames ->
-                       no_fatal (run c orc [] frames).
+(* Proofs.C02_full:
+     forall c orc tb frames, Forall (fun tf => 14 <= zlen (snd tf)) frames ->
+                             no_fatal (run c orc tb frames). *)
 
-(* ---- parsers: exactly when each one panics ---- *)
+(* ---- parsers ---- *)
 
 Theorem C02_eth_parse_total : forall d, 14 <= zlen d -> exists e, eth_parse d = Ok e.
 Proof. exact eth_parse_ok. Qed.
+
+Theorem C02_ipv4_parse_never_panics : forall b s, ipv4_parse b <> Panic s.
+Proof. exact ipv4_parse_no_panic. Qed.
+
+Theorem C02_ipv4_accepts_exactly_consistent_lengths : forall b,
+  (exists h, ipv4_parse b = Ok h) <->
+  20 <= zlen b /\ ip_hdrlen b <= zlen b /\ 20 <= u16_at b 2 <= zlen b.
+Proof. exact ipv4_parse_ok_iff. Qed.
+
+Theorem C02_ipv4_payload_is_total_minus_header : forall b h,
+  ipv4_parse b = Ok h -> zlen (ip_payload h) = u16_at b 2 - 20 /\ 20 <= u16_at b 2 <= zlen b.
+Proof. exact ipv4_parse_payload. Qed.
+
+Theorem C02_tcp_parse_never_panics : forall d s, tcp_parse d <> TPanic s.
+Proof. exact tcp_parse_no_panic. Qed.
+
+(* the option loop always terminates within the stated fuel *)
+Theorem C02_tcp_option_walk_terminates : forall fuel d n,
+  (length d <= fuel)%nat -> tcp_opts fuel d n <> Err OUT_OF_FUEL.
+Proof. exact tcp_opts_fuel. Qed.
+
+(* the two formerly fatal layouts are rejected with an error *)
+Theorem C02_tcp_short_segment_is_error : forall d,
+  zlen d < 20 -> exists h, tcp_parse d = THdr h 5.
+Proof. exact tcp_parse_short. Qed.
+
+Theorem C02_tcp_lone_option_kind_is_error : forall d,
+  20 <= zlen d -> 5 <= tcp_off d -> tcp_off d * 4 <= zlen d -> lone_kind (tcp_optbytes d) ->
+  exists h, tcp_parse d = THdr h 5.
+Proof. exact tcp_parse_lone_kind. Qed.
+
+Theorem C02_tcp_option_error_exactly_when : forall fuel d n,
+  (length d <= fuel)%nat -> (tcp_opts fuel d n = Err 5 <-> lone_kind d).
+Proof. exact tcp_opts_lone_iff. Qed.
 
 Theorem C02_udp_parse_never_panics : forall d s, udp_parse d <> Panic s.
 Proof. exact udp_parse_no_panic. Qed.
@@ -23,74 +59,50 @@ Proof. exact udp_parse_no_panic. Qed.
 Theorem C02_icmp_parse_never_panics : forall d s, icmp_parse d <> Panic s.
 Proof. exact icmp_parse_no_panic. Qed.
 
-Theorem C02_ipv4_panics_exactly_when : forall b s,
-  ipv4_parse b = Panic s <->
-  s = SITE_IP_TOTLEN /\ 20 <= zlen b /\ ip_hdrlen b <= zlen b /\ u16_at b 2 < 20.
-Proof. exact ipv4_parse_panic_iff. Qed.
-
-Theorem C02_ipv4_accepts_consistent_lengths : forall b,
-  20 <= zlen b -> ip_hdrlen b <= zlen b -> 20 <= u16_at b 2 <= zlen b ->
-  exists h, ipv4_parse b = Ok h /\ zlen (ip_payload h) = u16_at b 2 - 20.
-Proof. exact ipv4_parse_ok_when. Qed.
-
-(* the option loop always terminates within the stated fuel *)
-Theorem C02_tcp_option_walk_terminates : forall fuel d n,
-  (length d <= fuel)%nat -> tcp_opts fuel d n <> Err OUT_OF_FUEL.
-Proof. exact tcp_opts_fuel. Qed.
-
-Theorem C02_tcp_panics_exactly_when : forall d s,
-  tcp_parse d = TPanic s <->
-  (s = SITE_TCP_SHORT /\ zlen d < 20) \/
-  (s = SITE_TCP_OPT /\ 20 <= zlen d /\ 5 <= tcp_off d /\ tcp_off d * 4 <= zlen d /\
-   lone_kind (tcp_optbytes d)).
-Proof. exact tcp_parse_panic_iff. Qed.
-
-Theorem C02_tcp_plain_header_safe : forall d s,
-  20 <= zlen d -> tcp_off d = 5 -> tcp_parse d <> TPanic s.
-Proof. exact tcp_parse_plain_header_safe. Qed.
-
+(* arp.Unmarshal (unchanged) still panics on these inputs; it is UNREACHABLE from the
+   receive loop: handleARP is only called when doARP is set, and doARP is an unexported
+   field that nothing assigns (the harness re-checks that fact and sends such an ARP
+   frame through the real loop in every run).  [rx] ignores ARP frames accordingly. *)
 Theorem C02_arp_panics_exactly_when : forall d s,
   arp_parse d = Panic s <->
   s = SITE_ARP /\ 28 <= zlen d /\ byte_at d 4 <= 20 /\ byte_at d 5 <= 20 /\
   zlen d < 8 + 2 * byte_at d 4 + 2 * byte_at d 5.
 Proof. exact arp_parse_panic_iff. Qed.
 
-(* ---- one frame: every fatal outcome lies in one of five named classes, for every
-   state table, every time and every behaviour of the established-state machine ---- *)
+(* ---- one frame ---- *)
 
-Theorem C02_fatal_only_in_named_classes : forall c orc tb now f s tb',
-  14 <= zlen f -> rx c orc tb now f = (RFatal s, tb') ->
-  (s = SITE_IP_TOTLEN /\ ip_of f = Some (Panic s)) \/
-  ((s = SITE_TCP_SHORT \/ s = SITE_TCP_OPT) /\ tcp_of f = Some (TPanic s)) \/
-  (s = SITE_NO_ARP /\ exists a, resolve c a = false) \/
-  (s = SITE_TABLE_FULL /\ table_full c tb now).
+Theorem C02_no_frame_is_fatal : forall c orc tb now f,
+  14 <= zlen f -> is_fatal (fst (rx c orc tb now f)) = false.
+Proof. exact rx_not_fatal. Qed.
+
+(* what must not change: the only fatal outcome left in the model is the excluded one *)
+Theorem C02_fatal_only_below_link_header : forall c orc tb now f s tb',
+  rx c orc tb now f = (RFatal s, tb') -> s = SITE_ETH /\ zlen f < 14.
 Proof. exact rx_fatal_inv. Qed.
 
-Theorem C02_frame_safe_outside_classes : forall c orc tb now f,
-  14 <= zlen f -> frame_wf f = true -> all_resolvable c -> ~ table_full c tb now ->
-  is_fatal (fst (rx c orc tb now f)) = false.
-Proof. exact rx_safe. Qed.
-
-(* a frame changes the table length by at most one slot and nothing else grows it *)
-Theorem C02_table_grows_by_at_most_one : forall c orc tb now f o tb',
-  rx c orc tb now f = (o, tb') -> zlen tb <= zlen tb' <= zlen tb + 1.
+(* a frame adds at most one slot, and the table never outgrows its capacity *)
+Theorem C02_table_stays_within_capacity : forall c orc tb now f o tb',
+  rx c orc tb now f = (o, tb') ->
+  zlen tb' <= zlen tb + 1 /\ (zlen tb <= c_cap c -> zlen tb' <= c_cap c).
 Proof. exact rx_table_len. Qed.
 
-(* ---- histories ---- *)
+(* ---- histories: the full statement ---- *)
 
-Theorem C02_history_safe_outside_classes : forall c orc, all_resolvable c -> forall fs tb,
-  Forall frame_ok fs -> zlen tb + zlen fs <= c_cap c ->
+Theorem C02_full_holds : C02_full.
+Proof. exact full_holds. Qed.
+
+Theorem C02_history_never_fatal : forall c orc fs tb,
+  Forall frame_ok fs ->
   no_fatal (run c orc tb fs) /\
-  exists tb', run_table c orc tb fs = Some tb' /\ zlen tb' <= zlen tb + zlen fs.
+  exists tb', run_table c orc tb fs = Some tb' /\ (zlen tb <= c_cap c -> zlen tb' <= c_cap c).
 Proof. exact run_safe. Qed.
 
-(* the property itself, outside the defect classes: after any such hostile history the
-   listener is alive and a well-formed UDP probe yields exactly its event *)
-Theorem C02_probe_after_hostile : forall c orc hostile t probe ev,
-  all_resolvable c -> Forall frame_ok hostile -> zlen hostile <= c_cap c ->
-  udp_probe_of c probe = Some ev ->
-  no_fatal (run c orc [] hostile) /\
-  run c orc [] (hostile ++ [(t, probe)]) = run c orc [] hostile ++ [RUdpEvent ev].
+(* after ANY hostile history (from any table state) the listener is alive and a
+   well-formed UDP probe yields exactly its event *)
+Theorem C02_probe_after_hostile : forall c orc tb hostile t probe ev,
+  Forall frame_ok hostile -> udp_probe_of c probe = Some ev ->
+  no_fatal (run c orc tb (hostile ++ [(t, probe)])) /\
+  run c orc tb (hostile ++ [(t, probe)]) = run c orc tb hostile ++ [RUdpEvent ev].
 Proof. exact survive_then_probe. Qed.
 
 Theorem C02_probe_event_independent_of_state : forall c orc tb now f ev,
@@ -101,27 +113,35 @@ Proof. exact rx_probe. Qed.
 
 Theorem C02_flood_below_capacity : forall c orc f q lo, answered_syn c f = Some q -> forall us ts,
   Forall (in_window lo) us -> Forall (in_window lo) ts -> zlen ts + zlen us <= c_cap c ->
-  run c orc (ftab q ts) (map (fun t => (t, f)) us) = repeat (RTcp 1) (length us) /\
+  run c orc (ftab q ts) (map (fun t => (t, f)) us) =
+    repeat (RTcp 1 (resolve c (q_sip q))) (length us) /\
   run_table c orc (ftab q ts) (map (fun t => (t, f)) us) = Some (ftab q (ts ++ us)).
 Proof. exact flood_below. Qed.
 
-Theorem C02_flood_closed_form : forall c orc f q lo us1 u us2,
+Theorem C02_flood_closed_form : forall c orc f q lo us1 us2,
   answered_syn c f = Some q -> zlen us1 = c_cap c ->
-  Forall (in_window lo) (us1 ++ u :: us2) ->
-  run c orc [] (map (fun t => (t, f)) (us1 ++ u :: us2)) =
-    repeat (RTcp 1) (length us1) ++ RFatal SITE_TABLE_FULL :: repeat RDead (length us2).
+  Forall (in_window lo) (us1 ++ us2) ->
+  run c orc [] (map (fun t => (t, f)) (us1 ++ us2)) =
+    repeat (RTcp 1 (resolve c (q_sip q))) (length us1) ++ repeat (RIgnored 10) (length us2) /\
+  run_table c orc [] (map (fun t => (t, f)) (us1 ++ us2)) = Some (ftab q us1).
 Proof. exact flood_closed_form. Qed.
 
+Theorem C02_flood_beyond_capacity_survived : forall c orc f q t extra,
+  answered_syn c f = Some q -> 0 <= c_cap c ->
+  run c orc [] (repeat (t, f) (Z.to_nat (c_cap c) + extra)) =
+    repeat (RTcp 1 (resolve c (q_sip q))) (Z.to_nat (c_cap c)) ++ repeat (RIgnored 10) extra.
+Proof. exact flood_same_frame. Qed.
+
 (* the two facts the checker's use of the closed form rests on *)
-Theorem C02_checker_flood_head : forall c orc now f tb',
-  rx c orc [] now f = (RTcp 1, tb') -> exists q, answered_syn c f = Some q.
+Theorem C02_checker_flood_head : forall c orc now f b tb',
+  rx c orc [] now f = (RTcp 1 b, tb') -> exists q, answered_syn c f = Some q.
 Proof. exact rx_tcp1_answered. Qed.
 
 Theorem C02_checker_flood_rest : forall c orc tb1 tb2 now f,
   frame_is_tcp f = false -> fst (rx c orc tb1 now f) = fst (rx c orc tb2 now f).
 Proof. exact rx_non_tcp_table_indep. Qed.
 
-(* ---- the five defect classes are inhabited: byte-level witnesses ---- *)
+(* ---- non-vacuity; the former witnesses are dropped now ---- *)
 
 Definition PEER := 167772165.       (* 10.0.0.5 *)
 Definition W_IP_TOTLEN : bytes :=
@@ -131,80 +151,51 @@ Definition W_TCP_OPT : bytes := mk_ip_frame 6 PEER LOCALHOST (mk_tcp 3000 80 1 0
 Definition W_SYN : bytes := mk_ip_frame 6 PEER LOCALHOST (mk_tcp 5000 80 77 0 5 2 []).
 Definition CFG_NO_ENTRY : cfg := mkCfg [LOCALHOST] [] [] 65535.
 Definition CFG_ARP : cfg := mkCfg [LOCALHOST] [PEER] [] 65535.
+Definition CFG_TINY : cfg := mkCfg [LOCALHOST] [PEER] [] 2.
 Definition CFG_DEFAULT_ROUTE : cfg := mkCfg [LOCALHOST] [167772161] [mkRoute 0 0 167772161] 65535.
 
-Theorem C02_ipv4_total_length_refuted :
-  14 <= zlen W_IP_TOTLEN /\
-  forall c orc tb now, rx c orc tb now W_IP_TOTLEN = (RFatal SITE_IP_TOTLEN, tb).
-Proof. split; [vm_compute; discriminate|]. intros; reflexivity. Qed.
+(* the five witnesses of the unrepaired code: total length 0; 10-byte TCP segment (its
+   checksum field reads as 0 /= computed, so the handler goes on with an empty header and
+   finds no connection); option kind 2 as last byte; SYN from an unanswerable peer
+   (connection opened, nothing sent); third SYN on a two-slot table (dropped) *)
+Example C02_former_witnesses_are_dropped :
+  fst (rx CFG_ARP orc_c02 [] 0 W_IP_TOTLEN) = RIgnored 2 /\
+  fst (rx CFG_ARP orc_c02 [] 0 W_TCP_SHORT) = RIgnored 7 /\
+  fst (rx CFG_ARP orc_c02 [] 0 W_TCP_OPT) = RTcp 1 true /\
+  fst (rx CFG_NO_ENTRY orc_c02 [] 0 W_SYN) = RTcp 1 false /\
+  run CFG_TINY orc_c02 [] [(0, W_SYN); (1, W_SYN); (2, W_SYN)] = [RTcp 1 true; RTcp 1 true; RIgnored 10].
+Proof. repeat split; vm_compute; reflexivity. Qed.
 
-Theorem C02_tcp_short_segment_refuted :
-  14 <= zlen W_TCP_SHORT /\
-  forall c orc tb now, rx c orc tb now W_TCP_SHORT = (RFatal SITE_TCP_SHORT, tb).
-Proof. split; [vm_compute; discriminate|]. intros; reflexivity. Qed.
-
-Theorem C02_tcp_option_refuted :
-  14 <= zlen W_TCP_OPT /\
-  forall c orc tb now, rx c orc tb now W_TCP_OPT = (RFatal SITE_TCP_OPT, tb).
-Proof. split; [vm_compute; discriminate|]. intros; reflexivity. Qed.
-
-Theorem C02_unanswerable_peer_refuted :
-  14 <= zlen W_SYN /\
-  forall orc now, fst (rx CFG_NO_ENTRY orc [] now W_SYN) = RFatal SITE_NO_ARP.
-Proof. split; [vm_compute; discriminate|]. intros; reflexivity. Qed.
-
-(* for every table size: one more half-open connection than slots, at one instant *)
-Theorem C02_table_full_refuted : forall c orc f q t,
-  answered_syn c f = Some q -> 0 <= c_cap c ->
-  run c orc [] (repeat (t, f) (Z.to_nat (c_cap c)) ++ [(t, f)]) =
-    repeat (RTcp 1) (Z.to_nat (c_cap c)) ++ [RFatal SITE_TABLE_FULL].
-Proof. exact flood_same_frame. Qed.
-
-Theorem C02_full_refuted : ~ C02_full.
-Proof.
-  intros H. specialize (H CFG_ARP orc_c02 [(0, W_IP_TOTLEN)]).
-  assert (F : Forall (fun tf : Z * bytes => 14 <= zlen (snd tf)) [(0, W_IP_TOTLEN)]).
-  { constructor; [vm_compute; discriminate|constructor]. }
-  specialize (H F). vm_compute in H. inversion H as [|? ? H1 ?]. discriminate.
-Qed.
-
-(* ---- non-vacuity ---- *)
-
-(* the usual configuration (default route with a known gateway) answers every peer *)
-Example C02_all_resolvable_satisfiable : all_resolvable CFG_DEFAULT_ROUTE.
-Proof. apply (default_route_resolves CFG_DEFAULT_ROUTE 167772161 []); reflexivity. Qed.
-
-(* the flood witness applies to the real table size *)
 Example C02_flood_witness_applies :
   answered_syn CFG_ARP W_SYN = Some (PEER, 5000, LOCALHOST, 80) /\ 0 <= c_cap CFG_ARP.
 Proof. split; [vm_compute; reflexivity|vm_compute; discriminate]. Qed.
 
 Definition W_PROBE : bytes := mk_ip_frame 17 PEER LOCALHOST (mk_udp 40000 30000 [99;48;50]%N).
 Definition W_HOSTILE : list (Z * bytes) :=
-  [(0, W_SYN); (1, W_SYN);
-   (2, mk_ip_frame 6 PEER LOCALHOST (mk_tcp 5000 80 0 0 5 4 []));      (* RST *)
-   (3, ETH_IPV4 ++ [69; 0]%N);                                           (* truncated IPv4 *)
-   (4, [2;0;0;0;0;1; 2;0;0;0;0;2; 8;6; 0;1;8;0;20;20]%N);                (* ARP *)
-   (5, mk_ip_frame 1 PEER LOCALHOST [8;0;0;0;0;1;0;1]%N);                (* ICMP echo *)
-   (6, mk_ip_frame 6 PEER LOCALHOST (mk_tcp 6000 80 1 0 4 2 []))].      (* bad data offset, bad checksum *)
+  [(0, W_SYN); (1, W_IP_TOTLEN); (2, W_TCP_SHORT); (3, W_TCP_OPT);
+   (4, mk_ip_frame 6 PEER LOCALHOST (mk_tcp 5000 80 0 0 5 4 []));      (* RST *)
+   (5, ETH_IPV4 ++ [69; 0]%N);                                           (* truncated IPv4 *)
+   (6, [2;0;0;0;0;1; 2;0;0;0;0;2; 8;6; 0;1;8;0;20;20]%N);                (* ARP *)
+   (7, mk_ip_frame 1 PEER LOCALHOST [8;0;0;0;0;1;0;1]%N);                (* ICMP echo *)
+   (8, mk_ip_frame 6 PEER LOCALHOST (mk_tcp 6000 80 1 0 4 2 []))].      (* bad data offset, bad checksum *)
 
 Example C02_probe_after_hostile_nonvacuous :
-  Forall frame_ok W_HOSTILE /\ zlen W_HOSTILE <= c_cap CFG_DEFAULT_ROUTE /\
-  udp_probe_of CFG_DEFAULT_ROUTE W_PROBE = Some (mkEv PEER LOCALHOST 40000 30000 [99;48;50]%N) /\
-  run CFG_DEFAULT_ROUTE orc_c02 [] (W_HOSTILE ++ [(7, W_PROBE)]) =
-    [RTcp 1; RTcp 1; RTcp 2; RIgnored 2; RIgnored 1; RIcmp; RTcp 1;
-     RUdpEvent (mkEv PEER LOCALHOST 40000 30000 [99;48;50]%N)].
+  Forall frame_ok W_HOSTILE /\
+  udp_probe_of CFG_NO_ENTRY W_PROBE = Some (mkEv PEER LOCALHOST 40000 30000 [99;48;50]%N) /\
+  run CFG_NO_ENTRY orc_c02 [] (W_HOSTILE ++ [(9, W_PROBE)]) =
+    [RTcp 1 false; RIgnored 2; RIgnored 7; RTcp 1 false; RTcp 2 false; RIgnored 2; RIgnored 1; RIcmp;
+     RTcp 1 false; RUdpEvent (mkEv PEER LOCALHOST 40000 30000 [99;48;50]%N)].
 Proof.
-  split; [|split; [|split]].
+  split; [|split].
   - unfold W_HOSTILE.
-    repeat (apply Forall_cons; [split; [vm_compute; discriminate|vm_compute; reflexivity]|]).
-    apply Forall_nil.
-  - vm_compute; discriminate.
+    repeat (apply Forall_cons; [unfold frame_ok; vm_compute; discriminate|]). apply Forall_nil.
   - vm_compute; reflexivity.
   - vm_compute; reflexivity.
 Qed.
 
-(* the option-walk characterisation is inhabited on both sides *)
+Example C02_all_resolvable_satisfiable : all_resolvable CFG_DEFAULT_ROUTE.
+Proof. apply (default_route_resolves CFG_DEFAULT_ROUTE 167772161 []); reflexivity. Qed.
+
 Example C02_lone_kind_nonvacuous :
   lone_kind [1;1;1;2]%N /\ ~ lone_kind [2;4;5;180]%N.
 Proof.
@@ -215,27 +206,26 @@ Proof.
 Qed.
 
 Print Assumptions C02_eth_parse_total.
+Print Assumptions C02_ipv4_parse_never_panics.
+Print Assumptions C02_ipv4_accepts_exactly_consistent_lengths.
+Print Assumptions C02_ipv4_payload_is_total_minus_header.
+Print Assumptions C02_tcp_parse_never_panics.
+Print Assumptions C02_tcp_option_walk_terminates.
+Print Assumptions C02_tcp_short_segment_is_error.
+Print Assumptions C02_tcp_lone_option_kind_is_error.
+Print Assumptions C02_tcp_option_error_exactly_when.
 Print Assumptions C02_udp_parse_never_panics.
 Print Assumptions C02_icmp_parse_never_panics.
-Print Assumptions C02_ipv4_panics_exactly_when.
-Print Assumptions C02_ipv4_accepts_consistent_lengths.
-Print Assumptions C02_tcp_option_walk_terminates.
-Print Assumptions C02_tcp_panics_exactly_when.
-Print Assumptions C02_tcp_plain_header_safe.
 Print Assumptions C02_arp_panics_exactly_when.
-Print Assumptions C02_fatal_only_in_named_classes.
-Print Assumptions C02_frame_safe_outside_classes.
-Print Assumptions C02_table_grows_by_at_most_one.
-Print Assumptions C02_history_safe_outside_classes.
+Print Assumptions C02_no_frame_is_fatal.
+Print Assumptions C02_fatal_only_below_link_header.
+Print Assumptions C02_table_stays_within_capacity.
+Print Assumptions C02_full_holds.
+Print Assumptions C02_history_never_fatal.
 Print Assumptions C02_probe_after_hostile.
 Print Assumptions C02_probe_event_independent_of_state.
 Print Assumptions C02_flood_below_capacity.
 Print Assumptions C02_flood_closed_form.
+Print Assumptions C02_flood_beyond_capacity_survived.
 Print Assumptions C02_checker_flood_head.
 Print Assumptions C02_checker_flood_rest.
-Print Assumptions C02_ipv4_total_length_refuted.
-Print Assumptions C02_tcp_short_segment_refuted.
-Print Assumptions C02_tcp_option_refuted.
-Print Assumptions C02_unanswerable_peer_refuted.
-Print Assumptions C02_table_full_refuted.
-Print Assumptions C02_full_refuted.
